@@ -86,7 +86,6 @@ struct StrOutcome {
     model: String,
     dec_luau: String,
     dec_51: String,
-    straddles: bool,
     safe51: bool,
     longform: bool,
 }
@@ -169,9 +168,8 @@ fn run_str_cases(cases: &[StrCase], with_generators: bool) -> Vec<StrOutcome> {
                     model: get(0),
                     dec_luau: get(1),
                     dec_51: get(2),
-                    straddles: get(3) == "true",
-                    safe51: get(4) == "true",
-                    longform: get(5) == "true",
+                    safe51: get(3) == "true",
+                    longform: get(4) == "true",
                 }
             })
             .collect()
@@ -183,7 +181,7 @@ fn str_input(c: &StrCase) -> Value {
            "ascii": String::from_utf8_lossy(&c.v)})
 }
 
-/// does the property's oracle fail on the real code for `v` (outside the recorded F14 region)?
+/// does the property's oracle fail on the real code for `v`?
 fn str_oracle_fails(model: &mut Model, v: &[u8]) -> Option<String> {
     let real = match real_write_string(v) {
         Ok(r) => r,
@@ -191,11 +189,11 @@ fn str_oracle_fails(model: &mut Model, v: &[u8]) -> Option<String> {
     };
     let answer = model.ask(&format!("c13.str {} {}", hex(v), hex(&real)));
     let parts: Vec<&str> = answer.split(' ').collect();
-    if parts.len() < 6 {
+    if parts.len() < 5 {
         return None;
     }
     let expected = format!("some:{}", hex(v));
-    if parts[1] != expected && parts[3] != "true" {
+    if parts[1] != expected {
         return Some(format!(
             "write_string gives {:?}, which Luau reads as {}",
             String::from_utf8_lossy(&real),
@@ -302,9 +300,7 @@ fn evaluate_str(report: &mut Report, cases: &[StrCase], outcomes: &[StrOutcome],
         let oracle_51_ok = o.dec_51 == expected;
         // ---- oracle (Luau)
         if !oracle_luau_ok {
-            if o.straddles {
-                report.hist("string-oracle", "fails-inside-F14-region(recorded)");
-            } else {
+            {
                 report.violation(Violation {
                     kind: "oracle".into(),
                     check: "string-roundtrip-luau".into(),
@@ -335,7 +331,7 @@ fn evaluate_str(report: &mut Report, cases: &[StrCase], outcomes: &[StrOutcome],
                     failing_input_found: true,
                 });
             } else {
-                report.hist("string-oracle-lua51", "fails-outside-lua51Safe(\\u / F14 / F14b)");
+                report.hist("string-oracle-lua51", "fails-outside-lua51Safe(\\u / F14b)");
             }
         } else {
             report.hist("string-oracle-lua51", "ok");
@@ -345,7 +341,7 @@ fn evaluate_str(report: &mut Report, cases: &[StrCase], outcomes: &[StrOutcome],
             // budgeted: a systematic break shows up on thousands of inputs; search around the
             // first few only
             let searches = report.counters.get("correspondence_searches").copied().unwrap_or(0);
-            let found = if (oracle_luau_ok || o.straddles) && searches < 4 {
+            let found = if oracle_luau_ok && searches < 4 {
                 report.count("correspondence_searches", 1);
                 search_str_failure(&c.v, rng)
             } else {
@@ -360,7 +356,7 @@ fn evaluate_str(report: &mut Report, cases: &[StrCase], outcomes: &[StrOutcome],
                         "ascii": String::from_utf8_lossy(&w), "found_from": hex(&c.v)}),
                     failing_input_found: true,
                 }),
-                None if oracle_luau_ok || o.straddles => report.violation(Violation {
+                None if oracle_luau_ok => report.violation(Violation {
                     kind: "correspondence".into(),
                     check: "write_string".into(),
                     what: format!(
@@ -881,14 +877,8 @@ fn neighbour_contexts(v: &[u8]) -> Vec<(&'static str, Expression, usize)> {
 }
 
 fn check_neighbours(report: &mut Report, values: &[Vec<u8>]) {
-    // only values whose own literal is right (the F14 region is excluded by asking the model)
-    let mut model = Model::spawn();
     let parser = Parser::default();
     for v in values {
-        if model.ask(&format!("c13.straddles {}", hex(v))) != "false" {
-            report.hist("neighbour", "skipped(F14 region)");
-            continue;
-        }
         for (ctx, expr, count) in neighbour_contexts(v) {
             let block = Block::default().with_last_statement(ReturnStatement::one(expr));
             let outputs: Vec<(&str, Result<String, String>)> = vec![
@@ -970,6 +960,10 @@ fn check_neighbours(report: &mut Report, values: &[Vec<u8>]) {
 fn replay_known(report: &mut Report) {
     let mut model = Model::spawn();
     for k in known_findings("C13") {
+        // a fixed entry excuses nothing: its witness is in corpus/C13 and must pass
+        if k["status"] != "known" {
+            continue;
+        }
         let id = k["id"].as_str().unwrap_or("?").to_owned();
         let w = &k["witness"];
         match w["kind"].as_str() {
